@@ -213,3 +213,19 @@ pub fn __last_or_zero(v: &Vec<u8>) -> (r: u8)
 pub fn __first_or_zero(v: &Vec<u8>) -> (r: u8)
     ensures r == (if v@.len() > 0 { v@[0] } else { 0u8 })
 { unimplemented!() }
+
+//@ assume __slice_last_is_zero : rule R36a: `if let Some(&0) = s.last()`: s is non-empty and its last element is 0
+#[verifier::external_body]
+pub fn __slice_last_is_zero(s: &[u64]) -> (r: bool)
+    ensures r == (s@.len() > 0 && s@[s@.len() - 1] == 0)
+{ unimplemented!() }
+//@ assume __slice_first_is_zero : rule R36b: `if let Some(&0) = s.first()`: s is non-empty and its first element is 0
+#[verifier::external_body]
+pub fn __slice_first_is_zero(s: &[u64]) -> (r: bool)
+    ensures r == (s@.len() > 0 && s@[0] == 0)
+{ unimplemented!() }
+//@ assume __rposition_nonzero_end : rule R36c: std semantics of `s.iter().rposition(|&x| x != 0).map_or(0, |i| i + 1)`
+#[verifier::external_body]
+pub fn __rposition_nonzero_end(s: &[u64]) -> (r: usize)
+    ensures r <= s@.len(), r > 0 ==> s@[r - 1] != 0, forall|j: int| r <= j < s@.len() ==> s@[j] == 0
+{ unimplemented!() }
